@@ -34,7 +34,7 @@ def one(name):
                 open(f, "w").write(s2)
         res = {}
         for pr in PROPS:
-            q = subprocess.run(f"./check {pr} --no-write", shell=True, cwd="/verif", env=dict(os.environ, SPV_REPO=scr),
+            q = subprocess.run(f"./check {pr} --no-write", shell=True, cwd=os.environ.get("SPV_CHECK_ROOT", "/verif"), env=dict(os.environ, SPV_REPO=scr),
                                capture_output=True, text=True, timeout=900)
             if q.returncode != 0:
                 lines = [l for l in q.stdout.splitlines() if l.startswith(("  rule=", "ANALYSIS-ERROR"))][:2]
